@@ -29,7 +29,7 @@ ASSUMPTIONS = ["any injective map from time steps to recorded engine columns (th
                "implied normals are compared within the rounding bound of the cumulative sum: 16*eps*(T*max|z| + max|X|/(sigma*sqrt(dt)))",
                "the distributional clauses of the property are not decided by this check (partial claim)"]
 PROBES = ["implied_normals", "noise_stall", "sigma_zero_skeleton", "merton_zero_intensity", "kou_zero_intensity", "instrument_engine",
-          "init_nondefault", "drift_nonzero", "float64", "n_steps_1", "n_steps_2", "horizon_not_multiple_of_dt", "live_instrument"]
+          "init_nondefault", "drift_nonzero", "float64", "n_steps_1", "n_steps_2", "horizon_not_multiple_of_dt", "live_instrument", "simulation_aborted_by_sigma_fn"]
 FNS = ["generate_brownian", "generate_geometric_brownian", "generate_merton_jump", "generate_kou_jump", "MertonJumpStock", "KouJumpStock"]
 
 
@@ -285,12 +285,39 @@ def _execute(program, stats, hist):
                                                                dt=dtv, dtype=dtype).spot
                 else:
                     inst = pfi.LocalVolatilityStock(make_sigma_fn("zero"), dt=dtv, dtype=dtype)
+                    if op.get("torch_seed", 0) % 3 == 0 and T >= 2:
+                        # F8: an earlier simulation of the same object was aborted by its sigma_fn; what can be read from the
+                        # instrument afterwards is still the previous complete sample of the model, not a mixture
+                        inst.sigma_fn = make_sigma_fn("const:0.3")
+                        inst.simulate(n_paths=n, time_horizon=(T - 1) * dtv)
+                        keep = {k_: b.clone() for k_, b in inst.named_buffers()}
+                        cnt = [0]
+
+                        def flaky(time, spot, _at=op["torch_seed"] % 4):
+                            cnt[0] += 1
+                            if cnt[0] > _at:
+                                raise RuntimeError("injected")
+                            return torch.full_like(spot, 0.3)
+                        inst.sigma_fn = flaky
+                        try:
+                            inst.simulate(n_paths=n, time_horizon=(T - 1) * dtv)
+                        except RuntimeError:
+                            now = {k_: b for k_, b in inst.named_buffers()}
+                            stats.fault("F8_callback_exception")
+                            stats.probe("simulation_aborted_by_sigma_fn")
+                            stats.checks += 1
+                            if now and not (sorted(now) == sorted(keep) and all(torch.equal(now[k_], keep[k_]) for k_ in now)):
+                                raise Violation(ID, "sample_is_a_mixture_after_failure", "LocalVolatilityStock.simulate[aborted]",
+                                                {"note": "buffers after an aborted simulate are neither the previous sample nor absent"}, seq)
+                        inst.sigma_fn = make_sigma_fn("zero")
                     frac = [0.0, 0.0, 0.4, 0.75][op.get("seed", op.get("torch_seed", 0)) % 4] if T >= 2 else 0.0
                     if frac:
                         stats.probe("horizon_not_multiple_of_dt")
                     inst.simulate(n_paths=n, time_horizon=(T - 1 - frac) * dtv, init_state=(init,) if init is not None else None)
                     out = inst.spot
                     T = out.shape[1]
+            except Violation:
+                raise
             except Exception as e:
                 raise Violation(ID, "op_raised", "%s:%s" % (site, type(e).__name__), {"error": repr(e)[:300], "op": op}, seq)
             stats.probe("sigma_zero_skeleton")
